@@ -95,7 +95,11 @@ func genSteps(t *rapid.T, n int, faults bool) []Step {
 			case 22:
 				out = append(out, Step{Kind: "corrupt", A: rapid.IntRange(0, 9).Draw(t, "k"), B: rapid.IntRange(0, 5000).Draw(t, "pos"), How: rapid.SampledFrom(corruptions).Draw(t, "how")})
 			default:
-				out = append(out, Step{Kind: "cache-err", A: rapid.IntRange(0, 3).Draw(t, "n")})
+				if rapid.Bool().Draw(t, "cachecorrupt") {
+					out = append(out, Step{Kind: "cache-corrupt", B: rapid.IntRange(0, 5000).Draw(t, "pos"), How: rapid.SampledFrom(corruptions).Draw(t, "how")})
+				} else {
+					out = append(out, Step{Kind: "cache-err", A: rapid.IntRange(0, 3).Draw(t, "n")})
+				}
 			}
 		}
 	}
@@ -123,6 +127,7 @@ type scriptedCache struct {
 	errAt       map[int]bool
 	hits, miss  int
 	forgot      int
+	corrupt     func(key, chain []byte) []byte // cache-level corruption of hits
 }
 
 func (s *scriptedCache) Get(ctx context.Context, key []byte) ([]byte, error) {
@@ -144,6 +149,9 @@ func (s *scriptedCache) Get(ctx context.Context, key []byte) ([]byte, error) {
 	}
 	if v != nil {
 		s.hits++
+		if s.corrupt != nil {
+			v = s.corrupt(key, append([]byte(nil), v...))
+		}
 	} else {
 		s.miss++
 	}
@@ -466,6 +474,15 @@ func check(t *testing.T, c Case) (v harness.Verdict) {
 			r.faulted = true
 			v.Class("corrupt:" + how)
 			v.NonTrivial = true
+		case "cache-corrupt":
+			// the cache hands back altered bytes for every later hit (memory corruption / poisoned cache)
+			how, pos := s.How, s.B
+			r.sc.mu.Lock()
+			r.sc.corrupt = func(key, chain []byte) []byte { return corruptChain(chain, how, pos, nil) }
+			r.sc.mu.Unlock()
+			r.faulted, r.addFault = true, true
+			v.Class("cache-corrupt:" + how)
+			v.NonTrivial = true
 		case "cache-err":
 			r.sc.mu.Lock()
 			r.sc.errAt[r.sc.gets+s.A] = true
@@ -482,6 +499,8 @@ func check(t *testing.T, c Case) (v harness.Verdict) {
 		for start := 0; start < size; start += 3 {
 			r.compareRead(&v, "/ct/v1/get-entries", fmt.Sprintf("start=%d&end=%d", start, start+2), false)
 		}
+		r.compareRead(&v, "/ct/v1/get-entry-and-proof", "leaf_index=0&tree_size=1", true)
+		r.compareRead(&v, "/ct/v1/get-entry-and-proof", fmt.Sprintf("leaf_index=%d&tree_size=%d", size-1, size), true)
 	}
 	r.sc.mu.Lock()
 	if r.sc.miss+r.sc.forgot > 0 && r.sc.hits > 0 {
